@@ -15,6 +15,7 @@ import GeoProofs.Lemmas.C01QAtoms
 import GeoProofs.Lemmas.C01QDisjoint
 import GeoProofs.Lemmas.C01QTypes
 import GeoProofs.Lemmas.C01QAreal
+import GeoProofs.Lemmas.C01QPoint
 import Mathlib.Tactic.NormNum
 
 namespace Geo.Proofs.C01
@@ -704,7 +705,7 @@ theorem dimsSpec_lineString (cs : List Pt) (hlen : cs.length ≠ 1) : Spec.DimsS
 empty interior in the specification (no segment, so no point is located on it) -/
 theorem dimsSpec_lineString_witness : dims (.lineString [⟨0, 0⟩]) = .zero := by decide +kernel
 
-theorem dimsSpec_lineString_witness' : (relateSpec (.lineString [⟨0, 0⟩]) (.point ⟨5, 5⟩)).ie = .empty := by
+theorem dimsSpec_lineString_witness_ie : (relateSpec (.lineString [⟨0, 0⟩]) (.point ⟨5, 5⟩)).ie = .empty := by
   decide +kernel
 
 /-- [T] MultiLineString without one-coordinate members: the boundary dimension by the mod-2 rule across
@@ -770,5 +771,67 @@ example : relateSpec (.line ⟨0, 0⟩ ⟨1, 1⟩) (.rect ⟨5, 0⟩ ⟨7, 2⟩)
 example : computeDisjoint (dims (.line ⟨0, 0⟩ ⟨1, 1⟩)) (boundaryDims (.line ⟨0, 0⟩ ⟨1, 1⟩))
       (dims (.rect ⟨5, 0⟩ ⟨7, 2⟩)) (boundaryDims (.rect ⟨5, 0⟩ ⟨7, 2⟩)) = ⟨.empty, .empty, .one, .empty, .empty, .zero, .two, .one, .two⟩ := by
   decide +kernel
+
+/-! ## 6. Spec adequacy (S1), restricted forms: the full matrix against a Point -/
+
+/-- [T] a cell other than EE is the largest dimension of an atom located there (`Spec.CellMax`). -/
+theorem cell_of_cellMax {pa pb : Parts} {X Y : Pos} {d : Dim} (hne : ¬ (X = .outside ∧ Y = .outside))
+    (hm : Spec.CellMax pa pb X Y d) : (relateParts pa pb).get X Y = d := Spec.cell_of_cellMax hne hm
+
+/-- [T] **rows Interior and Boundary of `Point c` against any geometry**: the cell `(Interior, Y)` is `0`
+if `c` is located `Y` w.r.t. the other operand and `F` otherwise; the row Boundary is `F` — the true
+DE-9IM rows of a point (the point set `{c}` meets exactly one of interior / boundary / exterior of `B`,
+in a set of dimension 0). Lifts `isWithin_relate_point` (C02) from mask level to cell level. -/
+theorem relateSpec_point_row (c : Pt) (b : Geom) (X Y : Pos) (hX : X ≠ .outside) :
+    (relateSpec (.point c) b).get X Y = if X = .inside ∧ locate b c = Y then .zero else .empty :=
+  Spec.relate_point_left c (parts b) X Y hX
+
+/-- [T] **columns Interior and Boundary of any geometry against `Point c`** (lifts
+`isContains_relate_point` / `isIntersects_relate_point`). -/
+theorem relateSpec_point_col (a : Geom) (c : Pt) (X Y : Pos) (hY : Y ≠ .outside) :
+    (relateSpec a (.point c)).get X Y = if Y = .inside ∧ locate a c = X then .zero else .empty :=
+  Spec.relate_point_right (parts a) c X Y hY
+
+example : (relateSpec (.point ⟨1, 1⟩) (.line ⟨0, 0⟩ ⟨2, 2⟩)).get .inside .inside = .zero := by
+  rw [relateSpec_point_row _ _ _ _ (by decide)]
+  have : locate (.line ⟨0, 0⟩ ⟨2, 2⟩) ⟨1, 1⟩ = .inside := by decide +kernel
+  simp [this]
+
+/-- [T] **Point × Point, the full matrix**: `0FFFFFFF2` for equal points, `FF0FFF0F2` otherwise. -/
+theorem relateSpec_point_point (c d : Pt) :
+    relateSpec (.point c) (.point d) =
+      if c = d then ⟨.zero, .empty, .empty, .empty, .empty, .empty, .empty, .empty, .two⟩
+      else ⟨.empty, .empty, .zero, .empty, .empty, .empty, .zero, .empty, .two⟩ :=
+  Spec.relateParts_point_point c d
+
+example : (relateSpec (.point ⟨1, 2⟩) (.point ⟨1, 2⟩)).str = "0FFFFFFF2" := by
+  rw [relateSpec_point_point, if_pos rfl]; decide
+example : (relateSpec (.point ⟨1, 2⟩) (.point ⟨3, 2⟩)).str = "FF0FFF0F2" := by
+  rw [relateSpec_point_point, if_neg (by simp)]; decide
+
+/-- [T] **Line × Point, the full matrix** (non-degenerate Line): `IE = 1`, `BE = 0` always; the point
+puts a `0` into II, BI or EI according to its location (`0F1FF0FF2`, `FF10F0FF2`, `FF1FF00F2`). -/
+theorem relateSpec_line_point (a b c : Pt) (hab : a ≠ b) :
+    relateSpec (.line a b) (.point c) =
+      match locate (.line a b) c with
+      | .inside => ⟨.zero, .empty, .one, .empty, .empty, .zero, .empty, .empty, .two⟩
+      | .onBoundary => ⟨.empty, .empty, .one, .zero, .empty, .zero, .empty, .empty, .two⟩
+      | .outside => ⟨.empty, .empty, .one, .empty, .empty, .zero, .zero, .empty, .two⟩ :=
+  Spec.relateParts_line_point a b c hab
+
+/-- [T] **Point × Line, the full matrix**: the transpose (`0FFFFF102`, `F0FFFF102`, `FF0FFF102`). -/
+theorem relateSpec_point_line (a b c : Pt) (hab : a ≠ b) :
+    relateSpec (.point c) (.line a b) =
+      match locate (.line a b) c with
+      | .inside => ⟨.zero, .empty, .empty, .empty, .empty, .empty, .one, .zero, .two⟩
+      | .onBoundary => ⟨.empty, .zero, .empty, .empty, .empty, .empty, .one, .zero, .two⟩
+      | .outside => ⟨.empty, .empty, .zero, .empty, .empty, .empty, .one, .zero, .two⟩ := by
+  rw [relateSpec_transpose (.line a b) (.point c), relateSpec_line_point a b c hab]
+  cases locate (.line a b) c <;> rfl
+
+example : (relateSpec (.point ⟨0, 0⟩) (.line ⟨0, 0⟩ ⟨2, 2⟩)).str = "F0FFFF102" := by
+  rw [relateSpec_point_line _ _ _ (by simp)]
+  have : locate (.line ⟨0, 0⟩ ⟨2, 2⟩) ⟨0, 0⟩ = .onBoundary := by decide +kernel
+  rw [this]; decide
 
 end Geo.Proofs.C01
